@@ -392,10 +392,12 @@ def attr_signatures(tree):
         for m in n.body:
             if isinstance(m, ast.FunctionDef) and m.args.args:
                 recv = m.args.args[0].arg
+                called = {id(x.func) for x in ast.walk(m) if isinstance(x, ast.Call)}
                 for x in ast.walk(m):
                     if isinstance(x, ast.Attribute) and isinstance(x.value, ast.Name) and x.value.id == recv:
-                        sig.setdefault(x.attr, []).append('%s:%s' % (m.name, 'S' if isinstance(x.ctx, (ast.Store, ast.Del)) else 'L'))
-        out[n.name] = {a: ' '.join(sorted(v)) for a, v in sig.items()}
+                        sig.setdefault(x.attr, []).append('%s:%s' % (m.name, 'S' if isinstance(x.ctx, (ast.Store, ast.Del)) else ('C' if id(x) in called else 'L')))
+        # only data fields: bound somewhere in the class and never called
+        out[n.name] = {a: ' '.join(sorted(v)) for a, v in sig.items() if any(e.endswith(':S') for e in v) and not any(e.endswith(':C') for e in v)}
     return out
 
 
@@ -854,6 +856,18 @@ class _InlineNewHelpers(_InlineMethods):
                 st.test = h.visit(st.test)
             pre = h.pre
             seq = []
+            if len(pre) == 1 and direct is None and isinstance(st, (ast.Assign, ast.AugAssign, ast.AnnAssign, ast.Expr, ast.Return)):
+                # the only use of the helper's value is this statement: the statement itself is what every `return v` of the helper continues with
+                import copy
+                tmp = pre[0].targets[0].id
+
+                def on_return(ret, tmp=tmp, st=st):
+                    v = ret.value if ret.value is not None else ast.copy_location(ast.Constant(value=None), ret)
+                    return [ast.copy_location(_Subst({tmp: v}).visit(copy.deepcopy(st)), ret)]
+                whole = self._try_expand(pre[0], pre[0].value, None, host, on_return=on_return)
+                if whole is not None:
+                    out += whole
+                    continue
             for a in pre:
                 seq += self._try_expand(a, a.value, a.targets[0], host)
             if direct is not None:
